@@ -76,7 +76,10 @@ CLAIMS = {
         'blank lines for the space part), is empty for comments=none and holds at most n blank lines for space=n. Partial: trailing_trivia and the handlers\' choice of '
         'region are not modelled - decided by the oracle: after every successful op of random edit sequences the token streams (comments included) before/after must agree '
         'outside the element window (element extent + adjacent separators/introducers/parentheses + comments in the surrounding gaps), no comment may be duplicated, '
-        'put_line_comment may change only the addressed comment; the theorem predicates are also evaluated on the real leading_trivia outputs.',
+        'put_line_comment may change only the addressed comment; the theorem predicates are also evaluated on the real leading_trivia outputs. Also proved: how the compact trivia option is read '
+        '(models/TriviaParams.v == get_trivia_params over every option shape, exhaustive correspondence): a bare +N / -N means the side default kind (block leading, line trailing), the sides are '
+        'independent, the default / shorthand trailing side selects only the line comment. Deterministic sweeps: option shorthands, docstr=False/strict string preservation, pure insertions into '
+        'multi-line sequences.',
    note='Trusted: Coq kernel/vm_compute; hand models Text.v and Trivia.v tied by correspondence; tokenize as token reference; container separators and grouping parentheses are '
         'ignored globally by the oracle (they may legitimately change anywhere in the edited container). No axioms.',
    design='DESIGN.md section 4 C04'),
@@ -96,8 +99,11 @@ CLAIMS = {
         'walk filtered by match; the unrepaired MNOT complement rule is refuted by a witness. Both defects were repaired in /repo (fix commits). Partial: capture priority, '
         'quantified sub-lists containing quantifiers, back-references, node/primitive matchers and layout independence are decided by correspondence with re.fullmatch '
         '(accept/reject + repetition counts over the pattern-sequence x element-sequence family) and by oracles (search vs filtered walk for 20 combinator patterns, self-match, '
-        'one-leaf difference, formatted vs pure AST vs re-layout, repeated calls).',
-   note='Trusted: Coq kernel/vm_compute; hand model Match.v tied by correspondence; Python re as reference for quantifier sequences (OH3). No axioms.',
+        'one-leaf difference, formatted vs pure AST vs re-layout, repeated calls). Nested quantifiers (models/MatchNested.v, any depth; one repetition is an atomic group as documented): proved '
+        'sound for the regular language of the nested pattern, completeness REFUTED by the witness (?:b.?b)?b on bbb, complete for deterministic repetitions, exact and equal to the flat model on flat '
+        'patterns; tied by correspondence to the real matcher (accept/reject + length of every repetition) and to re with atomic groups (?>...). A history stage reuses one pattern object over '
+        'sequences of targets (match / search / pure AST) against fresh pattern objects.',
+   note='Trusted: Coq kernel/vm_compute; hand models Match.v and MatchNested.v tied by correspondence; Python re (with atomic groups for nested repetitions) as reference for quantifier sequences (OH3). No axioms.',
    design='DESIGN.md section 4 C17'),
  'C06': dict(
    technique='Coq proof: byte/character coordinate maps (c2b = bytes before the character, strictly monotone, b2c its inverse and containing-character finder, ASCII identity) for all strings; correspondence with astutil.bistr; tokenizer / bracket-matcher / brute-force oracles for locations, pars() and by-location search',
@@ -179,8 +185,10 @@ CLAIMS = {
         'uniquely; the whole-match template is the identity in both modes; the count equals the number of outermost matches; a tree without matches is returned unchanged. The nested model (replacement '
         'root and template nodes never re-examined, captures below the root examined) is tied by correspondence. Partial: matcher, slice / quantifier captures, slot discovery, text preservation and '
         'counts on real trees are decided by the oracle: FST.subn vs a pure-AST reference for 16 scenarios x flat/nested on corpus and generated programs (C01, structure, counts, comments outside '
-        'substituted nodes).',
-   note='Trusted: Coq kernel/vm_compute; hand model Subst.v tied by correspondence; FST.match for the set of matching nodes (C17); ast.unparse/parse to decide that a reference result is a program. No axioms.',
+        'substituted nodes). Also proved (models/SubLoop.v, the driver loop over the match locations with count / loop / callback, tied by correspondence to the counts FST.subn reports): the reported '
+        'pair is (locations substituted, substitutions performed) for every setting, every location takes at most what it can match and at most the same loop allowance, a count limit is respected. '
+        'Deterministic stages: statement templates, single vs slice slots of one template, __FSS_/__FSO_, loop with declining callbacks.',
+   note='Trusted: Coq kernel/vm_compute; hand models Subst.v and SubLoop.v tied by correspondence; FST.match for the set of matching nodes (C17); ast.unparse/parse to decide that a reference result is a program. No axioms.',
    design='DESIGN.md section 4 C18'),
  'C19': dict(
    technique='Coq proof: expression <-> match-pattern coercion over a grammar covering everything the routines accept: whenever a coercion succeeds the result has exactly the names and constants of the operand in the same order (both directions), simple forms round-trip, other expressions are refused; correspondence of accept/refuse and result structure with as_(pattern) / FST(ast, pattern) / as_(expr); kind x mode matrix oracle',
